@@ -65,6 +65,9 @@ def gen_cases(rng, tier):
             if how == "prefix" and cmd == "ping":
                 continue  # ping is routed by its message, not by the key: it reaches the other (enabled) backend
             cases.append({"kind": "disabled", "cmd": cmd, "how": how})
+    for cmd in ["delete_tags"]:      # composite facade commands (built from several backend commands): never raise because of disabling either
+        for how in ["full", "disabling", "setup", "enabled"]:
+            cases.append({"kind": "disabled", "cmd": cmd, "how": how})
     for how in ["full", "get", "set", "none", "disabling", "late_full"]:      # late_full: one call while enabled (its result is stored), then disable(): the stored result must not be served
         for deco in ["cache", "early", "soft", "hit"]:
             cases.append({"kind": "decor", "how": how, "deco": deco, "calls": 3})
@@ -128,6 +131,7 @@ async def _issue(cache, cmd, key="k1", exact=False):
     elif cmd == "get_size": r = await cache.get_size(key)
     elif cmd == "set_raw": r = await cache.set_raw(key, 5)
     elif cmd == "get_raw": r = await cache.get_raw(key)
+    elif cmd == "delete_tags": r = await cache.delete_tags(key)
     else: raise KeyError(cmd)
     return "none" if r is None else "value"
 
@@ -236,7 +240,7 @@ def run_impl(case):
                 await cache.init()
                 await b.set("k1", "stored"); await b.set("k1x", "stored")
                 _spy(b, log, 0)
-                C_ = Command(cmd) if cmd != "exists" else Command.EXISTS
+                C_ = None if cmd == "delete_tags" else Command(cmd) if cmd != "exists" else Command.EXISTS
                 other = Command.GET if C_ is not Command.GET else Command.SET
                 disabled = how not in ("enabled", "other_cmd") and not (how == "prefix" and cmd == "ping")
                 res, raised = None, False
@@ -255,7 +259,7 @@ def run_impl(case):
                         res = await _issue(cache, cmd)
                 except Exception as e:  # noqa
                     raised = type(e).__name__
-                called = any(c == C_.value for _, c in log)
+                called = any(c == C_.value for _, c in log) if C_ is not None else bool(log)      # composite: any backend command at all
                 return {"disabled": disabled, "res": res, "called": called, "raised": raised}
             if kind == "decor":
                 cache.setup("mem://?check_interval=0")
